@@ -881,7 +881,7 @@
           ((null? (cdr sre))
            #f)
           ((char-set-sre? sre)
-           (make-char-state (sre->char-set sre) flags next (next-id)))
+           (make-char-state (sre->char-set sre flags) ~none next (next-id)))
           ((null? (cddr sre))
            (->rx (cadr sre) flags next))
           (else
